@@ -23,9 +23,15 @@ const ProbeErrPrefix = "probe-error:"
 type ProbeError struct {
 	ID   string
 	Kind Kind
+	Text string // configured message (parameter errText): several probes may fail with the same text
 }
 
-func (e *ProbeError) Error() string { return ProbeErrPrefix + e.ID + ":" + e.Kind.String() }
+func (e *ProbeError) Error() string {
+	if e.Text != "" {
+		return e.Text
+	}
+	return ProbeErrPrefix + e.ID + ":" + e.Kind.String()
+}
 
 // ProbeErrString is the message of the error probe id returns on kind k.
 func ProbeErrString(id string, k Kind) string { return ProbeErrPrefix + id + ":" + k.String() }
@@ -36,6 +42,7 @@ type probe struct {
 	errRes bool
 	count  bool
 	n      int64
+	errTxt string
 }
 
 // stamp is what the probe appends to the trace: its id, and for a counting
@@ -51,7 +58,7 @@ func (p *probe) stamp() string {
 func (p *probe) modifyRequest(req *http.Request) error {
 	req.Header.Add(TraceHeader, p.stamp())
 	if p.errReq {
-		return &ProbeError{ID: p.id, Kind: Req}
+		return &ProbeError{ID: p.id, Kind: Req, Text: p.errTxt}
 	}
 	return nil
 }
@@ -59,7 +66,7 @@ func (p *probe) modifyRequest(req *http.Request) error {
 func (p *probe) modifyResponse(res *http.Response) error {
 	res.Header.Add(TraceHeader, p.stamp())
 	if p.errRes {
-		return &ProbeError{ID: p.id, Kind: Res}
+		return &ProbeError{ID: p.id, Kind: Res, Text: p.errTxt}
 	}
 	return nil
 }
@@ -78,6 +85,7 @@ type probeJSON struct {
 	ID    string               `json:"id"`
 	ErrOn []string             `json:"errOn"`
 	Count string               `json:"count"`
+	ErrTx string               `json:"errText"`
 	Scope []parse.ModifierType `json:"scope"`
 }
 
@@ -93,7 +101,7 @@ func RegisterProbes() {
 				if err := json.Unmarshal(b, msg); err != nil {
 					return nil, err
 				}
-				p := &probe{id: msg.ID, count: msg.Count != ""}
+				p := &probe{id: msg.ID, count: msg.Count != "", errTxt: msg.ErrTx}
 				for _, e := range msg.ErrOn {
 					switch strings.ToLower(e) {
 					case "request":
